@@ -649,6 +649,10 @@ fn run_stored(rt: &tokio::runtime::Runtime, c: &[u64]) -> Vec<u64> {
         // several real services over shared real ProtocolSets
         return crate::c08_multi::run_stored(rt, c);
     }
+    if c.first() == Some(&6) {
+        // the name tables of ProtocolSet::new
+        return crate::c08_names::run(rt, c);
+    }
     if c.first() == Some(&3) {
         // composed: real ProtocolSets -> real bounded channel -> real TransportService
         return match crate::c08_compose::parse(c) {
@@ -760,6 +764,15 @@ pub fn main(args: &Args, c09: bool) {
             out.emit(&c, &t);
         }
     }
+    // the name tables of ProtocolSet::new: protocols with fallback names and mixed keep-alive flags
+    {
+        let mut rr = Rng::new(seed ^ 0x6a6e);
+        for _ in 0..(ncases / 4).max(10) {
+            let c = crate::c08_names::gen(&mut rr);
+            let t = catch_unwind(AssertUnwindSafe(|| crate::c08_names::run(&rt, &c))).unwrap_or(vec![PANIC_MARK]);
+            out.emit(&c, &t);
+        }
+    }
     // several services over shared ProtocolSets, logical time only (reference counting, queues, ids)
     {
         let mut rr = Rng::new(seed ^ 0x5a17);
@@ -812,7 +825,9 @@ pub fn main(args: &Args, c09: bool) {
     // end to end: two real nodes over loopback TCP / WebSocket, real time
     if c09 {
         let mut rr = Rng::new(seed ^ 0xe2e9);
-        let cases: Vec<Vec<u64>> = (0..(ncases / 8).max(2)).map(|_| crate::c09_e2e::gen(&mut rr, &[0, 0, 1])).collect();
+        let mut cases: Vec<Vec<u64>> = (0..(ncases / 8).max(2)).map(|_| crate::c09_e2e::gen(&mut rr, &[0, 0, 1])).collect();
+        // request-response over main / fallback names, requests held by the responder across timeouts
+        cases.extend((0..(ncases / 10).max(2)).map(|_| crate::c09_e2e::gen_rr(&mut rr, &[0, 0, 1])));
         let results: Arc<Mutex<Vec<Option<Vec<u64>>>>> = Arc::new(Mutex::new(vec![None; cases.len()]));
         let next = Arc::new(std::sync::atomic::AtomicUsize::new(0));
         let cases = Arc::new(cases);
